@@ -353,6 +353,9 @@ def replay(ctx, case):
     if kind == "lut":
         out = _lut_shard([case["case"]])
         return [out[0][2]] if out[0][1] == "bad" else []
+    if kind == "softmax_exp":
+        n, bad = _softmax_exp_shard((case["beta"], [case["scale"]]))
+        return ["entry %d = %s, reference %s" % (b[2], b[3], b[4]) for b in bad]
     if kind == "quant":
         n, bad = _quant_shard((case["qkind"], tuple(case["params"])))
         return [str(b) for b in bad]
@@ -420,6 +423,14 @@ def run(ctx):
                 ctx.violation("lut|%s|%s|in=%s|out=%s|alpha=%s" % (case["op"], case["dtype"], case["in_q"], case["out_q"], case.get("alpha")),
                               "%s %s table: %s" % (case["op"], case["dtype"], what), dict(kind="lut", case=case))
     ctx.merge_counters({"lut_" + k: v for k, v in stat.items()})
+    # (d) the 256-entry exponential table of the 8-bit SOFTMAX lowering
+    betas = [0.5, 1.0, 2.0] if quick else [0.125, 0.25, 0.5, 1.0, 2.0, 4.0, 0.7]
+    scales = [2.0 ** e for e in range(-8, 3)] + [0.0235, 0.1, 0.9, 1.5, 3.0, 0.75]
+    for n, bad in pmap(_softmax_exp_shard, [(b, scales) for b in betas]):
+        ctx.count("softmax_exp_entries", n)
+        for beta, scale, code, got, exp in bad:
+            ctx.violation("softmax_exp|beta=%s|scale=%s" % (beta, scale), "SOFTMAX exp table (beta %s, input scale %s): entry %d (input_diff %d) = %s, TFLite reference = %s" % (beta, scale, code, code - 255, got, exp),
+                          dict(kind="softmax_exp", beta=beta, scale=scale))
     if stat.get("ok", 0) == 0:
         ctx.inconclusive = "no table could be extracted"
     c = ctx.counters
@@ -436,6 +447,56 @@ def run(ctx):
     )
     return ctx.finish("exploration", cov, ["gemmlowp semantics written from the public definitions (vfw/ref/quant.py)",
                                           "table entries within 1e-4 LSB of a rounding tie accept either neighbour; hard-swish and leaky-relu entries may equal the TFLite integer reference kernel instead of the rounded real function"])
+
+
+def softmax_exp_reference(beta, scale):
+    """TFLite reference 8-bit Softmax: PreprocessSoftmaxScaling + CalculateInputRadius + exp_on_negative_values (kScaledDiffIntegerBits = 5)"""
+    real = min(float(beta) * float(scale) * (1 << 26), float((1 << 31) - 1))
+    m, left = Q.quantize_multiplier(real)
+    if left < 0:
+        return None
+    diff_min = -int(math.floor(1.0 * 31 * (1 << 26) / (1 << left)))
+    tab = []
+    for x in range(256):
+        d = x - 255
+        if d >= diff_min:
+            tab.append(Q.exp_on_negative_values(Q.srdhm(d * (1 << left), m)))
+        else:
+            tab.append(0)
+    return tab
+
+
+def _softmax_exp_tables(beta, scales):
+    from ethosu.vela.softmax import SoftMax
+
+    out = []
+    for sc in scales:
+        try:
+            got = [int(v) for v in SoftMax(None).generate_exp_table(beta, np.float32(sc))]
+        except Exception as e:  # noqa
+            got = "%s: %s" % (type(e).__name__, str(e)[:80])
+        out.append((sc, got))
+    return out
+
+
+def _softmax_exp_shard(args):
+    beta, scales = args
+    core.bind_repo()
+    n = 0
+    bad = []
+    for sc, got in _softmax_exp_tables(beta, scales):
+        exp = softmax_exp_reference(beta, float(np.float32(sc)))
+        if exp is None:
+            continue
+        n += 256
+        if isinstance(got, str):
+            bad.append((beta, sc, 0, got, exp[0]))
+            continue
+        for i, (g, e) in enumerate(zip(got, exp)):
+            if g != e:
+                bad.append((beta, sc, i, g, e))
+                break
+    return n, bad
 
 
 def _fp16_list_shard(vals):
